@@ -429,24 +429,34 @@ pub fn c11_program(ctx: &Ctx, out: &mut RunOut) -> Result<(), Violation> {
                         return Err(v("resource-not-added", &opname, format!("returned Ok but page {p:?} cannot use /{} /{}", String::from_utf8_lossy(c), String::from_utf8_lossy(&nm))));
                     }
                 }
-                // frame: the page and the resource objects it resolves to
+                // frame: the page and the resource objects it resolves to — its own Resources or, when it
+                // has none, the nearest ancestor's (whose indirect sub-dictionaries the copied dictionary shares)
                 let mut allowed: BTreeSet<Id> = [p].into();
-                if let Some(MObj::Ref(a, b)) = pagegen::dict_of(&before.objects[&p]).and_then(|d| dict_get(d, b"Resources")) {
-                    allowed.insert((*a, *b));
-                    if let Some(MObj::Dict(rd)) = before.objects.get(&(*a, *b)) {
-                        for (_, val) in rd {
-                            if let MObj::Ref(x, y) = val {
-                                allowed.insert((*x, *y));
+                let mut node = Some(p);
+                for _ in 0..64 {
+                    let Some(nid) = node else { break };
+                    let Some(nd) = before.objects.get(&nid).and_then(pagegen::dict_of) else { break };
+                    if let Some(res) = dict_get(nd, b"Resources") {
+                        let mut res_dict = res;
+                        if let MObj::Ref(a, b) = res {
+                            allowed.insert((*a, *b));
+                            if let Some(o) = before.objects.get(&(*a, *b)) {
+                                res_dict = o;
                             }
                         }
-                    }
-                }
-                if let Some(MObj::Dict(rd)) = pagegen::dict_of(&before.objects[&p]).and_then(|d| dict_get(d, b"Resources")) {
-                    for (_, val) in rd {
-                        if let MObj::Ref(x, y) = val {
-                            allowed.insert((*x, *y));
+                        if let MObj::Dict(rd) = res_dict {
+                            for (_, val) in rd {
+                                if let MObj::Ref(x, y) = val {
+                                    allowed.insert((*x, *y));
+                                }
+                            }
                         }
+                        break;
                     }
+                    node = match dict_get(nd, b"Parent") {
+                        Some(MObj::Ref(a, b)) => Some((*a, *b)),
+                        _ => None,
+                    };
                 }
                 frame(&before, &after, &opname, &|x| allowed.contains(&x), false, false)?;
             }
